@@ -254,6 +254,16 @@ impl<U: User, E: Engine<U>> Stream<U, E> {
     }
 
     pub fn mplus(stream: Stream<U, E>, lazy: LazyStream<U, E>) -> Stream<U, E> {
+        #[cfg(terohuttunen_proto_vulcan_verif)]
+        crate::verif_sim::probe(
+            match &stream {
+                Stream::Empty => "mplus_empty",
+                Stream::Unit(_) => "mplus_unit",
+                Stream::Lazy(_) => "mplus_lazy",
+                Stream::Cons(_, _) => "mplus_cons",
+            },
+            0,
+        );
         match stream {
             Stream::Empty => Stream::lazy(lazy),
             Stream::Lazy(lazy_hat) => Stream::lazy_mplus(lazy, lazy_hat),
@@ -268,6 +278,16 @@ impl<U: User, E: Engine<U>> Stream<U, E> {
         } else if goal.is_fail() {
             Stream::empty()
         } else {
+            #[cfg(terohuttunen_proto_vulcan_verif)]
+            crate::verif_sim::probe(
+                match &stream {
+                    Stream::Empty => "bind_empty",
+                    Stream::Unit(_) => "bind_unit",
+                    Stream::Lazy(_) => "bind_lazy",
+                    Stream::Cons(_, _) => "bind_cons",
+                },
+                0,
+            );
             match stream {
                 Stream::Empty => Stream::Empty,
                 Stream::Lazy(lazy) => Stream::lazy_bind(lazy, goal),
@@ -289,6 +309,16 @@ impl<U: User, E: Engine<U>> Stream<U, E> {
     }
 
     pub fn mplus_dfs(stream: Stream<U, E>, lazy: LazyStream<U, E>) -> Stream<U, E> {
+        #[cfg(terohuttunen_proto_vulcan_verif)]
+        crate::verif_sim::probe(
+            match &stream {
+                Stream::Empty => "mplus_dfs_empty",
+                Stream::Unit(_) => "mplus_dfs_unit",
+                Stream::Lazy(_) => "mplus_dfs_lazy",
+                Stream::Cons(_, _) => "mplus_dfs_cons",
+            },
+            0,
+        );
         match stream {
             Stream::Empty => Stream::lazy(lazy),
             Stream::Lazy(lazy_hat) => Stream::lazy_mplus_dfs(lazy_hat, lazy),
@@ -305,6 +335,16 @@ impl<U: User, E: Engine<U>> Stream<U, E> {
         } else if goal.is_fail() {
             Stream::empty()
         } else {
+            #[cfg(terohuttunen_proto_vulcan_verif)]
+            crate::verif_sim::probe(
+                match &stream {
+                    Stream::Empty => "bind_dfs_empty",
+                    Stream::Unit(_) => "bind_dfs_unit",
+                    Stream::Lazy(_) => "bind_dfs_lazy",
+                    Stream::Cons(_, _) => "bind_dfs_cons",
+                },
+                0,
+            );
             match stream {
                 Stream::Empty => Stream::Empty,
                 Stream::Lazy(lazy) => Stream::lazy_bind_dfs(lazy, goal),
